@@ -106,6 +106,12 @@ PROJECTS = {
                                                     [('base_for().', 'import plug\nplug.base_for().', (2, 16)), ('Plugin.', 'import plug\nplug.Plugin.', (2, 12)),
                                                      ('Plugin().', 'import plug\nplug.Plugin().', (2, 14)), ('Late().', 'import plug\nplug.Late().', (2, 12)),
                                                      ('Late.own.', 'import plug\nplug.Late.own.', (2, 14))]),
+    'relative-imports-of-two-levels-in-one-module': ({'pkq/__init__.py': '', 'pkq/topmod.py': 'top_name = 1\n', 'pkq/sub/__init__.py': '',
+                                                       'pkq/sub/sib.py': 'sib_name = 2\n', 'pkq/sub/user.py': 'from . import sib\nfrom .. import topmod\nu = 3\n'},
+                                                      [('sib.', 'from . import sib\nfrom .. import topmod\nsib.', (3, 4)),
+                                                       ('topmod.', 'from . import sib\nfrom .. import topmod\ntopmod.', (3, 7)),
+                                                       ('topmod-only.', 'from .. import topmod\ntopmod.', (2, 7)), ('sib-only.', 'from . import sib\nsib.', (2, 4)),
+                                                       ('user.', 'from . import user\nuser.', (2, 5))], 'pkq/sub/edited.py'),
     'from-import-cycle': ({'p.py': 'from q import qv\npv = 1\ndef pf(): return qv\n', 'q.py': 'from p import pv\nqv = 2\nclass Q:\n    attr = pv\n'},
                           [('p.', 'import p\np.', (2, 2)), ('q.', 'import q\nq.', (2, 2)), ('q.Q.', 'import q\nq.Q.', (2, 4)), ('p.pf().', 'import p\np.pf().', (2, 7))]),
 }
@@ -149,7 +155,7 @@ finally:
 
 
 @harness(['C04', 'C09'], 'supp.assistant.assist / supp.linter.lint on one long-lived Project [every ordered pair of requests]',
-         bounded='4 projects (modules importing each other in cycles: star imports in rings of two and three, from-imports; a class whose base expression is answered through the class itself), every request sequence of length 2 and 3; 4 project modules (mutually recursive functions with a base case, attributes assigned on values reached through self, a class '
+         bounded='5 projects (a module with relative imports of two levels; modules importing each other in cycles: star imports in rings of two and three, from-imports; a class whose base expression is answered through the class itself), every request sequence of length 2 and 3; 4 project modules (mutually recursive functions with a base case, attributes assigned on values reached through self, a class '
                  'hierarchy evaluated through its instances and through a merged value, loop-carried values) x every ordered pair of requests '
                  '(completion of every top-level name, of the module itself, lint of the module) on one Project, compared with the second '
                  'request alone on a fresh Project')
@@ -209,17 +215,20 @@ def request_pairs(run):
                 prove('%s:answers-are-not-trivial' % mname, any(isinstance(v, list) and v for v in alone.values()), kind='lemma', path=path)
             finally:
                 shutil.rmtree(top, ignore_errors=True)
-        for pname, (files, reqs) in PROJECTS.items():
+        for pname, spec in PROJECTS.items():
+            files, reqs = spec[0], spec[1]
+            edited = spec[2] if len(spec) > 2 else 'edited.py'
             top = tempfile.mkdtemp(prefix='supp-c04-')
             try:
                 for fn, body in files.items():
+                    os.makedirs(os.path.dirname(os.path.join(top, fn)), exist_ok=True)
                     with open(os.path.join(top, fn), 'w') as f:
                         f.write(body)
 
-                def ask2(project, req):
+                def ask2(project, req, edited=edited):
                     with project.check_changes():
                         try:
-                            return A.assist(project, req[1], req[2], os.path.join(top, 'edited.py'))[1]
+                            return A.assist(project, req[1], req[2], os.path.join(top, edited))[1]
                         except Exception as e:
                             return '<raised %s>' % type(e).__name__
                 alone = {r[0]: ask2(Pj.Project([top]), r) for r in reqs}
@@ -240,6 +249,8 @@ def request_pairs(run):
                               seq[-1][0], [q[0] for q in seq[:-1]], got, alone[seq[-1][0]], files), path=path)
                 prove('%s:every-order-gives-the-same-answers' % pname, not bad,
                       clause='%d request histories on project %r, %d whose last answer differs from the answer on a fresh project' % (n, pname, len(bad)), path=path)
+                prove('%s:answers-are-not-trivial' % pname, sum(1 for v in alone.values() if isinstance(v, list) and v) >= 2, kind='lemma',
+                      clause='at least two requests of the project have proposals [%r]' % ({k: (len(v) if isinstance(v, list) else v) for k, v in alone.items()},), path=path)
             finally:
                 shutil.rmtree(top, ignore_errors=True)
     core.explore(lambda: None, lambda p, out: go(p))
